@@ -281,6 +281,12 @@ func (c *Ctx) selectInstr(st *State, fr *Frame, x *ssa.Select) {
 			sub := st.clone()
 			sub.assume(eq(idx, mkInt(int64(i))))
 			c.chanInv(sub, fr, s.Chan, c.get(st, fr, s.Send), s.Pos, true)
+			if c.chanMode(fr, s.Chan) == "count" {
+				ch := c.term(st, fr, s.Chan)
+				l := c.heapCur(st, chLen, arrSort(SInt))
+				nl := c.heapHavoc(st, chLen, l.Sort)
+				st.assume(eq(nl, ite(eq(idx, mkInt(int64(i))), sto(l, ch, mk(SInt, "(+ %s 1)", sel(l, ch, SInt).S)), l)))
+			}
 		}
 	}
 	st.regs[x] = tu
@@ -332,6 +338,14 @@ func (c *Ctx) goStmt(st *State, fr *Frame, x *ssa.Go) {
 			}
 			for _, key := range sortedKeys(ws) {
 				c.havocKey(st, key)
+			}
+		}
+		// object invariants the goroutine maintains hold whenever the spawner looks
+		env2 := c.calleeEnv(st, old, fr, tgt)
+		c.bindLets(env2, fc)
+		for _, cl := range fc.Clauses {
+			if cl.Kind == "maintains" {
+				st.assume(env2.evalBool(cl.E))
 			}
 		}
 	}
